@@ -6,7 +6,7 @@ from ..engine import Engine, V, State, NOCONST
 from ..frame import FrameDomain, is_idx, FULL, KNOWN
 from .. import astutil
 from .common import site
-from . import c17
+from . import c17, c07b
 
 
 def cst(v):
@@ -349,4 +349,7 @@ def check(repo, rep, tier):
   rule_frames(repo, rep)
   rule_chunks(repo, rep)
   rule_structure(repo, rep)
+  c07b.rule_knn(repo, rep)
+  c07b.rule_comb(repo, rep)
+  c07b.rule_chunks_interp(repo, rep)
   c17.rule_rng(repo, rep, only_constraints=True)
